@@ -129,12 +129,12 @@ func (res *relayEntrySubmitter) waitForSubmissionEligibility(
 	groupSize int,
 	blockStep uint64,
 ) (<-chan uint64, error) {
-	// First submitter index is calculated as entry % groupSize and gives
-	// an index from range [0, groupSize-1].
+	// First submitter index is calculated as (entry % groupSize) + 1 and
+	// gives a member index from range [1, groupSize].
 	firstSubmitterMemberIndex := new(big.Int).Mod(
 		new(big.Int).SetBytes(entry),
 		big.NewInt(int64(groupSize)),
-	).Uint64()
+	).Uint64() + 1
 
 	submissionQueueIndex := calculateSubmissionQueueIndex(
 		uint64(res.index),
